@@ -202,7 +202,10 @@ func c11Ops() []c11Op {
 		{"NodeList.GetRootNodes", func(e *c11Env, r *rand.Rand) { nl(e).GetRootNodes(); e.nl2.GetRootNodes() }},
 		{"Document.GetRootNodes", func(e *c11Env, r *rand.Rand) { e.doc.GetRootNodes() }},
 		{"NodeList.GetEdgeByType", func(e *c11Env, r *rand.Rand) { nl(e).GetEdgeByType(gen.Pick(r, e.ids), sbom.Edge_contains) }},
-		{"NodeList.GetMatchingNode", func(e *c11Env, r *rand.Rand) { _, _ = nl(e).GetMatchingNode(e.probe); _, _ = nl(e).GetMatchingNode(node(e, r)) }},
+		{"NodeList.GetMatchingNode", func(e *c11Env, r *rand.Rand) {
+			_, _ = nl(e).GetMatchingNode(e.probe)
+			_, _ = nl(e).GetMatchingNode(node(e, r))
+		}},
 		{"NodeList.NodeGraph", func(e *c11Env, r *rand.Rand) { nl(e).NodeGraph(gen.Pick(r, e.ids)) }},
 		{"NodeList.NodeSiblings", func(e *c11Env, r *rand.Rand) { nl(e).NodeSiblings(gen.Pick(r, e.ids)) }},
 		{"NodeList.NodeDescendants", func(e *c11Env, r *rand.Rand) { nl(e).NodeDescendants(gen.Pick(r, e.ids), 1+r.Intn(4)) }},
@@ -313,9 +316,9 @@ func init() {
 			}
 			return 24
 		},
-		RaceCase:  c11Race,
+		RaceCase:          c11Race,
 		CrashInconclusive: true,
-		MustCover: []string{"race-rounds", "overlapping-op-pairs"},
+		MustCover:         []string{"race-rounds", "overlapping-op-pairs"},
 		Parent: func(p *core.ParentCtx) {
 			if u := c11UnclassifiedMethods(); len(u) > 0 {
 				p.Inconclusive("public methods neither in the read-only nor in the mutator list: " + strings.Join(u, ","))
